@@ -594,7 +594,5 @@ static void register_lib_cells(Library* lib, const std::string& prefix) {
     for (uint64_t i = 0; i < lib->cell_array.count; i++) {
         T_cell.put(prefix + "." + std::to_string(i), lib->cell_array[i]);
     }
-    for (uint64_t i = 0; i < lib->rawcell_array.count; i++) {
-        T_raw.put(prefix + ".r" + std::to_string(i), lib->rawcell_array[i]);
-    }
+    // raw cells keep the handles they got from read_rawcells (copies share them)
 }
